@@ -144,7 +144,9 @@ def run(ctx, only=None):
     rng = random.Random(ctx.seed)
     n_parsed = 3000 if ctx.quick() else 40000
     n_loaded = 12000 if ctx.quick() else 200000
-    texts = ['\\\\{', 'Foo\\\\\n===', '![a](b}c)', '```a]b{\nx\n```', '[x](/a_b&c%7B)', '`|!"\'=+#$%&()*,-./:;<>?@[\\]^_{}~0123456789`']
+    texts = ['\\\\{', 'Foo\\\\\n===', '![a](b}c)', '```a]b{\nx\n```', '[x](/a_b&c%7B)', '`|!"\'=+#$%&()*,-./:;<>?@[\\]^_{}~0123456789`',
+             # dollars that do not pair up as a math span: math mode must not be left open
+             '$$x$', 'costs $$5$ each', '$$$', 'a $$$ b', '# h $$x$ y', '- $$x$\n- $ $', '| a$$b$ |\n| - |\n', '$x$$', '$ $$ $', '$$\n$']
     texts += inputs.mixed_stream(rng, n_parsed) + [inputs.hostile_doc(rng) for _ in range(n_parsed)]
     if only is not None:
         texts = only
